@@ -368,5 +368,5 @@ def run(ctx):
     ns = core.NPROC
     ctx.parallel(_small_worker, [(k, ns) for k in range(ns)])
     ctx.exhaustive["effect families of <= 2 terms over f h x z x {g, g:s} x group intercept"] = {"complete": True}
-    per = 200 if ctx.tier == "quick" else 2000
+    per = 200 if ctx.tier == "quick" else 6000
     ctx.parallel(_random_worker, [(k, per) for k in range(ns)])
